@@ -438,6 +438,19 @@ impl<'a, T: Read + Write + Seek> PointCloudWriter<'a, T> {
                 ))?
             }
 
+            // Integer values outside of the prototype range cannot be stored and would corrupt other values
+            if let (
+                RecordDataType::Integer { min, max } | RecordDataType::ScaledInteger { min, max, .. },
+                RecordValue::Integer(int) | RecordValue::ScaledInteger(int),
+            ) = (&p.data_type, value)
+            {
+                if int < min || int > max {
+                    Error::invalid(format!(
+                        "Value {int} at index {i} is outside of the prototype range {min}..{max}"
+                    ))?
+                }
+            }
+
             // Update cartesian bounds
             if p.name == RecordName::CartesianX
                 || p.name == RecordName::CartesianY
